@@ -8,6 +8,7 @@ CONSTANTS
     CreateUnderLock = TRUE
     MayFail = FALSE
     MayForget = FALSE
+    MayPanic = FALSE
 SYMMETRY Symm
 INVARIANTS TypeOK MutexOK OwnerOK Exclusive IdleDisjoint Conservation ReuseOK ReuseTight DataIntact
 PROPERTIES DecideCreateOnlyWhenIdleEmpty CreatedOnlyWhenIdleEmpty BlocksOnlyForgottenByPoolOps ResetRewindsAll DropReleasesAll LeakedStayValid
